@@ -32,6 +32,26 @@ CLAIMED = {
         "note": "Partial edits when a `?` fails inside a loop of mutations are not decided (value ranges). " + TRUST,
         "technique": "CFG reachability from push sites to `?`/Err exits, callee fallibility via call graph",
     },
+    "C08": {
+        "level": "Static decision of the property's own sink clause: every construction of a stored number (FormulaValue::Number, "
+                 "SpillValue::Number, Cell::NumberCell) in both crates is a literal, a copy of a stored number, or dominated by a "
+                 "NaN/Inf test on the same value; forwarding constructors push the obligation to all call sites.",
+        "note": "Derive-generated Clone/Decode are not sinks (decoded workbooks assumed produced by to_bytes). Which function "
+                "overflows is irrelevant to the rule. " + TRUST,
+        "technique": "who-may-construct inventory + reaching-definition provenance + CFG dominance of finite guards",
+    },
+    "C17": {
+        "level": "Static decision of the rename rewrite's shape: stores of the new name are control-dependent on an index "
+                 "comparison; the walker recurses into every child-bearing Node variant.",
+        "note": "Values after rename/move/duplicate are not decided; parser configuration during the rewrite is C10's rule. " + TRUST,
+        "technique": "MIR match-arm coverage + control dependence (dominating branch on Eq with the sheet_index parameter)",
+    },
+    "C29": {
+        "level": "Static decision by provenance of every field stored into a Col/Row descriptor by the five setters and three "
+                 "wrappers: same-named parameter, same field of the replaced descriptor, or a getter reading only that attribute.",
+        "note": "Ordering/disjointness of the cols vector is not decided (C27). " + TRUST,
+        "technique": "reaching-definition provenance of aggregate fields and in-place field stores",
+    },
     "C23": {
         "level": "Exhaustive static decision over finite tables: Function<->field codecs extracted from MIR are mutually "
                  "inverse bijections (495 x 3 tables), xlsx names parse back, and per language (5 x 495 names, 12 errors) the "
